@@ -353,7 +353,21 @@ def exec_ghost(it, reg, text, fr, result, old, genv=None):
     it.run.spec_depth += 1
     try:
         for st in tree.body:
-            it.exec_stmt(st, sf)
+            try:
+                it.exec_stmt(st, sf)
+            except X.PyRaise as e:
+                # the update names a local the code did not compute on this path (changed code): the ghost field takes an
+                # arbitrary value of its type, so whatever the contract says about it cannot be proved on this path
+                tgt = st.targets[0] if isinstance(st, ast.Assign) and len(st.targets) == 1 else None
+                ok = (e.etype in ("UnboundLocalError", "NameError") and isinstance(tgt, ast.Attribute) and
+                      isinstance(tgt.value, ast.Attribute) and tgt.value.attr == "ghost" and isinstance(tgt.value.value, ast.Name))
+                if not ok:
+                    raise
+                owner = sf.env.get(tgt.value.value.id)
+                k = reg.classes.get(it.run.obj(owner).cls) if isinstance(owner, Ref) else None
+                if k is None or tgt.attr not in k["ghost"]:
+                    raise
+                it.run.ghost[(owner.oid, tgt.attr)] = reg.make_symbolic(it, k["ghost"][tgt.attr], "ghost!unset!%s" % tgt.attr)
     finally:
         it.run.spec_depth -= 1
 
